@@ -189,7 +189,7 @@ class KFLWorld(engine.World):
     self.pool = common.OptimizerPool(lambda: list(self.vars.values()))
     # Reference state machine.  Construction counts as a raw write.
     self.dirty = {"kernel": True, "scale": True}
-    self.sign_seen = None
+    self.ref = common.KflRef(self.layer, fresh=True)
     self.snapshots = []
     self.prev_family = None
     self.prev_lr = None
@@ -214,7 +214,7 @@ class KFLWorld(engine.World):
   def _scale_sign(self):
     return np.sign(self.layer.scale.numpy()).astype(np.int8)
 
-  def _on_constraint(self, name, real):
+  def _on_constraint(self, name, real, w=None, out=None):
     """Called by the proxy each time a variable's constraint is evaluated."""
     self.calls.append(name)
     self.ctx.log("constraint", name)
@@ -222,7 +222,9 @@ class KFLWorld(engine.World):
     self.last_con = name
     if name == "kernel":
       # The projection just ran against the *current* scale.
-      self.sign_seen = self._scale_sign()
+      self.ref.on_kernel_projection()
+    elif name == "scale" and w is not None:
+      self.ref.on_scale_constraint(w.numpy(), np.asarray(out))
 
   def _log_state(self, ctx, tag):
     ws = common.np_weights([self.layer.scale, self.layer.bias,
@@ -240,6 +242,7 @@ class KFLWorld(engine.World):
       ctx.fire("sign_flip")
     if np.any((after_sign == 0) & (before_sign != 0)):
       ctx.reach("scale_entry_became_zero")
+    self.ref.end_of_event()
     self._log_state(ctx, "state")
 
   def _hostile_grads(self, es):
@@ -361,11 +364,13 @@ class KFLWorld(engine.World):
     ctx.token("manual:%s%d" % (ev["var"][0], ev.get("times", 1)))
 
   def _ev_finalize(self, ev, ctx):
-    sign = self._scale_sign()
+    pre = self.layer.scale.numpy()
     with ctx.sut("finalize_constraints"):
       self.layer.finalize_constraints()
     self.dirty = {"kernel": False, "scale": False}
-    self.sign_seen = sign
+    # finalize projects the kernel against the current scale, then the scale.
+    self.ref.on_kernel_projection(np.sign(pre))
+    self.ref.on_scale_constraint(pre, self.layer.scale.numpy())
     self.last_con = "finalize"
     ctx.fire("finalize")
     ctx.token("finalize")
@@ -396,7 +401,7 @@ class KFLWorld(engine.World):
     self.snapshots.append({
         "w": [np.array(w) for w in self.layer.get_weights()],
         "dirty": dict(self.dirty),
-        "sign_seen": None if self.sign_seen is None else self.sign_seen.copy(),
+        "ref": self.ref.state(),
     })
     ctx.token("snapshot")
 
@@ -409,8 +414,7 @@ class KFLWorld(engine.World):
     with ctx.sut("set_weights"):
       self.layer.set_weights(snap["w"])
     self.dirty = dict(snap["dirty"])
-    self.sign_seen = None if snap["sign_seen"] is None else snap[
-        "sign_seen"].copy()
+    self.ref.restore(snap["ref"])
     ctx.fire("snapshot_restore")
     if idx != len(self.snapshots) - 1:
       ctx.reach("restore_from_older_snapshot")
@@ -482,9 +486,7 @@ class KFLWorld(engine.World):
       return []
     sign_now = self._scale_sign()
     active = not (self.dirty["kernel"] or self.dirty["scale"])
-    stale_units = np.zeros(self.units, dtype=bool)
-    if self.sign_seen is not None:
-      stale_units = np.any(self.sign_seen * sign_now < 0, axis=1)
+    stale_units = self.ref.stale_units()
     ctx.abstract((bool(np.any(sign_now == 0)), bool(np.any(sign_now < 0)),
                   bool(np.any(sign_now > 0)), bool(np.any(stale_units)),
                   self.dirty["kernel"], self.dirty["scale"], self.last_con))
@@ -557,8 +559,9 @@ class KFLWorld(engine.World):
                   "x_hi": pts[i, j + 1],
                   "f_lo": yl[i, j, u],
                   "f_hi": yl[i, j + 1, u],
-                  "sign_seen": None if self.sign_seen is None else
-                               self.sign_seen[u],
+                  "sign_seen": None if self.ref.expected is None else
+                               self.ref.expected[u],
+                  "flipped_by_scale_constraint": self.ref.unexcused[u],
                   "sign_now": sign_now[u],
               }, margin=worst, tol=float(tol_u[u]),
               conditions=self._conditions(u, stale_units)))
